@@ -45,7 +45,9 @@ def _run_scope(facts_dir, scope, rounds, cache):
     eng = fixpoint(SCOPES[scope], facts=F, max_rounds=rounds)
     sites = {}
     for o in eng.obl:
-        key = f"{o['fn']}|{kind_class(o['kind'])}|{o['okey']}"
+        okey = o["okey"]
+        if kind_class(o["kind"]) == "panic": okey = okey.split(", &array")[0]     # an explicit panic is identified by its message, not by the formatted arguments
+        key = f"{o['fn']}|{kind_class(o['kind'])}|{okey}"
         e = sites.setdefault(key, dict(key=key, fn=o["fn"], kind=o["kind"], file=o["file"], line=o["line"], descr=o["descr"], ok=True, visits=0))
         e["ok"] = e["ok"] and o["ok"]; e["visits"] += 1
         if not o["ok"]: e["descr"] = o["descr"]
